@@ -114,7 +114,7 @@ def gen_case(rng, kind, tier):
                      "shape": shape, "x": [enc(x) for x in xs], "y": gen_target(rng, rank, binary),
                      "order": None})
     else:
-        k = rng.randint(2, 12)
+        k = rng.randint(2, max(2, min(12, int(1.6 / mf))))
         vals = rng.sample(LETTERS, k)
         if rng.random() < 0.3:
             vals = [v * rng.randint(1, 3) for v in vals]
@@ -190,11 +190,12 @@ def aggregate(case):
 class C09(Prop):
     pid = "C09"
     theorems = ["C09_ordinal_buckets_frequent", "C09_quantitative_buckets_frequent",
-                "C09_merging_conserves_and_is_contiguous", "C09_merging_terminates",
-                "C09_categorical_default_group", "C09_boundaries_observed_then_inf",
-                "C09_frequent_values_are_boundaries", "C09_boundaries_sorted",
-                "C09_boundaries_strict_refuted", "C09_boundaries_strict_partial",
-                "C09_quantile_recursion_depth"]
+                "C09_merging_conserves_and_is_contiguous", "C09_merges_only_neighbours",
+                "C09_merging_terminates", "C09_rare_pass_trigger_irrelevant",
+                "C09_categorical_default_group", "C09_categorical_nan_separate",
+                "C09_boundaries", "C09_boundaries_then_inf", "C09_boundaries_strict_refuted",
+                "C09_boundaries_strict_partial", "C09_boundaries_strict_after_repair",
+                "C09_quantile_recursion_depth", "C09_checker_sound"]
     rule = ("one feature fitted by ContinuousDiscretizer / QuantitativeDiscretizer / "
             "QualitativeDiscretizer (ordinal or categorical) / Discretizer on 30-600 rows: numeric "
             "columns continuous, discrete, spiked, tied around the over-representation threshold "
